@@ -426,7 +426,7 @@ def rewrite_body(text, rules_log, intended_panics=False, keep_asserts=False, run
                     continue
                 if name == "cfg":
                     atxt = norm("".join(x.text for x in toks[i:k + 1])).replace(" ", "")
-                    if atxt in ("#[cfg(unix)]", '#[cfg(not(target_os="windows"))]', "#[cfg(not(windows))]"):
+                    if atxt in ("#[cfg(unix)]", '#[cfg(not(target_os="windows"))]', "#[cfg(not(windows))]", '#[cfg(target_os="linux")]'):
                         rules_log.append(("R2", atxt + " dropped (platform: Linux)"))
                         i = k + 1
                         continue
@@ -434,7 +434,7 @@ def rewrite_body(text, rules_log, intended_panics=False, keep_asserts=False, run
                         rules_log.append(("R2", atxt + " kept (feature io-uring is off in the verified configuration)"))
                         i = k + 1
                         continue
-                    if atxt in ("#[cfg(not(unix))]", "#[cfg(windows)]", '#[cfg(target_os="windows")]',
+                    if atxt in ("#[cfg(not(unix))]", "#[cfg(windows)]", '#[cfg(target_os="windows")]', '#[cfg(not(target_os="linux"))]',
                                 '#[cfg(all(target_os="linux",feature="io-uring"))]', '#[cfg(feature="io-uring")]'):
                         # the item/block/statement this attribute guards does not exist on Linux: dropped with it
                         nx = _next_sig(toks, k + 1)
